@@ -37,6 +37,8 @@ def run(F, chk):
         check_index_sites(b, D2)
         dec = decoder_table(b)
     check_tables(F, dec, D1)
+    D3 = chk.rule('D3', 'every string argument text pushed into the rendering passed through the CR/LF/TAB -> space replacement')
+    check_string_sanitised(F, D3)
 
 
 def vars_of(e):
@@ -261,3 +263,38 @@ def check_tables(F, dec, D1):
         else:
             D1.violation(('width-mismatch', b.path), 'serialize_%s writes type word %s (tyle %d, flag expected %s) and %s value byte(s); the decoder maps tyle %d to %s byte(s)' %
                          (name, hex(ti), tyle, hex(fl), value_bytes, tyle, dec.get(tyle)), where=b.loc(None))
+
+
+DECODE_STR = re.compile(r'(from_utf8_lossy|decode_without_bom_handling|from_utf8|from_utf8_unchecked|decode)$')
+
+
+def check_string_sanitised(F, D3):
+    """in the argument renderer every push_str whose text derives from decoding payload bytes as a string
+    (from_utf8_lossy / WINDOWS_1252.decode...) also derives from Regex::replace_all (RE_NEW_LINE)"""
+    from prov import Prov, calls_in
+    b = F.get('adlt::dlt::DltMessage::process_msg_arg_iter')
+    if b is None:
+        D3.violation(('anchor-lost', 'process_msg_arg_iter'), 'argument renderer not found')
+        return
+    D3.fn(b.path)
+    cfg = CFG(b)
+    pr = Prov(cfg)
+    n = 0
+    for blk in b.calls():
+        t = blk.term
+        if not (t.callee.path.endswith('String::push_str') or t.callee.path.endswith('String::push') or t.callee.path.endswith('String::insert_str') or t.callee.path.endswith('String::extend')):
+            continue
+        toks = set()
+        for a in t.args[1:]:
+            toks |= pr.operand(a, at=blk.i)
+        calls = calls_in(toks)
+        if not any(DECODE_STR.search(c) for c in calls):
+            continue
+        n += 1
+        D3.sites += 1
+        if any(c.endswith('Regex::replace_all') or c.endswith('Regex::replace') for c in calls):
+            D3.ok(sample={'push_at': b.loc(t.sp), 'decoded_by': [c.split('::')[-1] for c in calls if DECODE_STR.search(c)], 'sanitised_by': 'Regex::replace_all'})
+        else:
+            D3.violation(('string-not-sanitised', b.path, '+'.join(sorted(set(c.split('::')[-1] for c in calls if DECODE_STR.search(c))))),
+                         'a string argument decoded from payload bytes is pushed into the text at %s without passing the CR/LF/TAB replacement: control characters would show up raw in the canonical text' % b.loc(t.sp), where=b.loc(t.sp))
+    D3.floor('string pushes in the argument renderer', n, 2)
